@@ -43,3 +43,9 @@ OBLIGATIONS += [
         unwindset=[("decoder_find", "", 16)], functions=["lzma_block_header_decode", "lzma_crc32"], tiers=("thorough",),
         desc="same for 12-byte Block Headers (real CRC32 over 8 bytes)", bounds_q="header size 12"),
 ]
+OBLIGATIONS_C09 = [
+    Obligation(name="stream_decoder_memlimit_gate", src="streamdec.c", func="harness_memlimit_gate", defs=G, unwind=8, units=SD_UNITS, flags=FL, functions=SDF, stubs=SD_STUBS,
+        unwindset=[("stream_decode", "^0", 3)], fp_restrict=["stream_decode.function_pointer_call.1/blk_code"],
+        desc=".xz Stream decoder at Block initialisation for every needed amount and limit: the Block decoder is initialised only if the amount fits; otherwise MEMLIMIT_ERROR with no input consumed, nothing allocated, the needed amount reported by memconfig, limits below it refused, the exact amount accepted, and the next call resumes at the same point and initialises the Block decoder",
+        bounds_q="all 64-bit usage/limit values"),
+]
